@@ -283,7 +283,24 @@ class RealHistory:
                 code = self.code_cache.get(src)
                 if code is None:
                     code = self.real.compile(src)
-                yp.load_script_from_string(code, SCRIPT_FN, overwrite=st[2])
+                import zlib
+                if zlib.crc32(src.encode('utf8')) % 5 == 0:
+                    # every fifth script goes through the engine's file API (what yldpc -o writes, loaded from disk)
+                    import os
+                    import tempfile
+                    fd, path = tempfile.mkstemp(prefix='ypv-script-', suffix='.py')
+                    try:
+                        with os.fdopen(fd, 'w', encoding='utf8') as fh:
+                            fh.write(code)
+                        self.loads_from_file = getattr(self, 'loads_from_file', 0) + 1
+                        yp.load_script_from_file(path, overwrite=st[2])
+                    finally:
+                        try:
+                            os.unlink(path)
+                        except OSError:
+                            pass
+                else:
+                    yp.load_script_from_string(code, SCRIPT_FN, overwrite=st[2])
             o = self.guarded(f)
         elif k == 'register':
             name, arity, rows = st[1], st[2], st[3]
